@@ -1444,6 +1444,26 @@ Proof.
   split; [exact K1|]. split; [exact K2|]. split; [exact K3|]. split; assumption.
 Qed.
 
+(* ... and Request.lock is free (what a StreamWriter op needs): on a fault-free transport every AWAITED read ends with
+   the reply flush completed (ConnTotal.await_input_unlocked) *)
+Definition HSL3 (r : rstate) (w : world) : Prop := HS3 r w /\ rlock r = false.
+
+Lemma HSL3_ev r w e : HSL3 r w -> HSL3 r (w_ev w e).
+Proof. intros [H L]. split; [apply HS3_ev; exact H|exact L]. Qed.
+
+Lemma await_input_hsl3 fuel dest r w : HSL3 r w ->
+  match await_input maxc fuel dest r w with
+  | Ok (_, r') w' => HSL3 r' w'
+  | Halt o _ => o <> ODeadlock
+  end.
+Proof.
+  intros [H L]. pose proof (await_input_hs3 fuel dest r w H) as A.
+  pose proof (await_input_unlocked (fun b => b) maxc fuel dest r w) as U.
+  destruct (await_input maxc fuel dest r w) as [[x r'] w'|o w']; [|exact A]. split; [exact A|].
+  destruct H as (H1 & H2 & H3 & _).
+  apply (U x r' w' (pinv_lgood _ H1) (remaining_world_ok _ H2) L H3 eq_refl).
+Qed.
+
 Lemma consume_hs3 r w c wr lk ab : HS3 r w -> HS3 (mkR (consume_stream (rsp r) c) wr lk ab) w.
 Proof.
   intros ([HRI HI0] & H2 & H3 & (vm & HS & H4) & [H5 H6]). pose proof (consume_stream_abs (rsp r) c HRI) as CA.
@@ -1527,6 +1547,31 @@ Proof.
   destruct (n =? 0); [exact A|]. apply IH. exact A.
 Qed.
 
+Lemma do_writeable_hsl3 r w : HSL3 r w ->
+  match do_writeable maxc r w with
+  | Ok (_, r') w' => HSL3 r' w'
+  | Halt o _ => o <> ODeadlock
+  end.
+Proof.
+  intros [H L]. unfold do_writeable. destruct (rwriteable r); [split; assumption|].
+  destruct (set_stream (rsp r) _) as [p'| |] eqn:E; [|discriminate|discriminate].
+  pose proof (await_input_hsl3 (io_fuel w 0) None _ w
+                (conj (set_stream_hs3 r w _ p' false (rlock r) (raborted r) H E) L)) as A.
+  destruct (await_input maxc (io_fuel w 0) None (mkR p' false (rlock r) (raborted r)) w) as [[[x|k] r'] w'|o w']; exact A.
+Qed.
+
+Lemma read_all_hsl3 : forall fuel acc r w, HSL3 r w ->
+  match read_all maxc fuel acc r w with
+  | Ok (_, r') w' => HSL3 r' w'
+  | Halt o _ => o <> ODeadlock
+  end.
+Proof.
+  induction fuel as [|f IH]; intros acc r w H; [cbn [read_all]; discriminate|]. cbn [read_all].
+  pose proof (await_input_hsl3 (io_fuel w 0) (Some 64) r w H) as A.
+  destruct (await_input maxc (io_fuel w 0) (Some 64) r w) as [[[[n b]|k] r'] w'|o w']; [|exact A|exact A].
+  destruct (n =? 0); [exact A|]. apply IH. exact A.
+Qed.
+
 (* the handler's own output: complete records appended to the log *)
 Lemma log_hs3 r w w' x : io_rel w w' x -> wholeF x -> HS3 r w -> HS3 r w'.
 Proof.
@@ -1551,45 +1596,58 @@ Proof.
   - destruct o; try contradiction; discriminate.
 Qed.
 
-Lemma run_handler_hs3 strict role cur script : script_ok strict role cur script -> no_abandoned_read script ->
-  forall f r w, HS3 r w ->
+Lemma run_handler_hsl3 strict role cur script : script_ok strict role cur script -> no_abandoned_read script ->
+  forall f r w, HSL3 r w ->
   match run_handler maxc f script r w with
-  | Ok (_, r') w' => HS3 r' w'
+  | Ok (_, r') w' => HSL3 r' w'
   | Halt o _ => o <> ODeadlock
   end.
 Proof.
   induction 1 as [cur|cur n rest H IH|cur rest H IH|cur k rest H IH|cur s rest Hacc H IH|cur rest H IH
                   |cur s n rest H IH|cur s rest H IH|cur d c rest Hd|cur k rest|cur n rest H IH|cur n rest H IH];
     intros NA; try (specialize (IH ltac:(inversion NA; assumption))); intros f r w HSr; (destruct f as [|f]; [cbn [run_handler]; discriminate|]); cbn [run_handler].
-  - apply HS3_ev, HSr.
-  - pose proof (await_input_hs3 (io_fuel w 0) (Some n) r w HSr) as A.
+  - apply HSL3_ev, HSr.
+  - pose proof (await_input_hsl3 (io_fuel w 0) (Some n) r w HSr) as A.
     destruct (await_input maxc (io_fuel w 0) (Some n) r w) as [[[[c b]|k] r1] w1|o w1]; [| |exact A];
-      apply IH; apply HS3_ev, HS3_ev, A.
-  - match goal with |- context [read_all maxc ?fu [] r w] => pose proof (read_all_hs3 fu [] r w HSr) as A;
+      apply IH; apply HSL3_ev, HSL3_ev, A.
+  - match goal with |- context [read_all maxc ?fu [] r w] => pose proof (read_all_hsl3 fu [] r w HSr) as A;
       destruct (read_all maxc fu [] r w) as [[[k acc] r1] w1|o w1] end; [|exact A].
-    apply IH. apply HS3_ev, HS3_ev, A.
-  - pose proof (await_input_hs3 (io_fuel w 0) None r w HSr) as A.
+    apply IH. apply HSL3_ev, HSL3_ev, A.
+  - pose proof (await_input_hsl3 (io_fuel w 0) None r w HSr) as A.
     destruct (await_input maxc (io_fuel w 0) None r w) as [[[[c b]|e] r1] w1|o w1]; [| |exact A].
-    + apply IH. apply HS3_ev, HS3_ev. apply consume_hs3. exact A.
-    + apply IH. apply HS3_ev, HS3_ev, A.
+    + apply IH. apply HSL3_ev, HSL3_ev. split; [apply consume_hs3; apply A|apply A].
+    + apply IH. apply HSL3_ev, HSL3_ev, A.
   - destruct (set_stream (rsp r) (Some s)) as [p'| |] eqn:E; [|discriminate|discriminate].
-    apply IH. apply HS3_ev. apply (set_stream_hs3 r w (Some s) p' _ _ _ HSr E).
-  - pose proof (do_writeable_hs3 r w HSr) as A.
-    destruct (do_writeable maxc r w) as [[e r1] w1|o w1]; [|exact A]. apply IH. apply HS3_ev, A.
-  - destruct (negb (rwriteable r)); [apply IH; apply HS3_ev, HSr|].
-    pose proof (writer_hs3 (N.to_nat (n / 65535) + 2) s (r_id (sreq (rsp r))) (take n rest) r w HSr) as A.
+    apply IH. apply HSL3_ev. split; [apply (set_stream_hs3 r w (Some s) p' _ _ _ (proj1 HSr) E)|apply HSr].
+  - pose proof (do_writeable_hsl3 r w HSr) as A.
+    destruct (do_writeable maxc r w) as [[e r1] w1|o w1]; [|exact A]. apply IH. apply HSL3_ev, A.
+  - destruct (negb (rwriteable r)); [apply IH; apply HSL3_ev, HSr|].
+    (* the lock is free: the writer does not wait *)
+    rewrite (proj2 HSr). cbn [andb].
+    pose proof (writer_hs3 (N.to_nat (n / 65535) + 2) s (r_id (sreq (rsp r))) (take n rest) r w (proj1 HSr)) as A.
     destruct (writer_write_all (N.to_nat (n / 65535) + 2) s (r_id (sreq (rsp r))) (take n rest) w) as [[k|] w1|o w1];
       [contradiction| |exact A].
-    apply IH. apply HS3_ev, A.
-  - destruct (rwriteable r); apply IH; apply HS3_ev, HSr.
-  - apply HS3_ev, HSr.
-  - apply HS3_ev, HSr.
-  - pose proof (await_input_hs3 (io_fuel w 0) (Some n) r w HSr) as A.
+    apply IH. apply HSL3_ev. split; [exact A|apply HSr].
+  - rewrite (proj2 HSr). destruct (rwriteable r); apply IH; apply HSL3_ev, HSr.
+  - apply HSL3_ev, HSr.
+  - apply HSL3_ev, HSr.
+  - pose proof (await_input_hsl3 (io_fuel w 0) (Some n) r w HSr) as A.
     destruct (await_input maxc (io_fuel w 0) (Some n) r w) as [[[[c b]|k] r1] w1|o w1]; [| |exact A].
-    + apply IH. apply HS3_ev, HS3_ev, A.
-    + apply HS3_ev, HS3_ev, A.
+    + apply IH. apply HSL3_ev, HSL3_ev, A.
+    + apply HSL3_ev, HSL3_ev, A.
   - (* 11 n is not a script that awaits its reads *)
     inversion NA.
+Qed.
+
+Lemma run_handler_hs3 strict role cur script : script_ok strict role cur script -> no_abandoned_read script ->
+  forall f r w, HS3 r w -> rlock r = false ->
+  match run_handler maxc f script r w with
+  | Ok (_, r') w' => HS3 r' w'
+  | Halt o _ => o <> ODeadlock
+  end.
+Proof.
+  intros Hs NA f r w H L. pose proof (run_handler_hsl3 strict role cur script Hs NA f r w (conj H L)) as A.
+  destruct (run_handler maxc f script r w) as [[x r'] w'|o w']; [apply A|exact A].
 Qed.
 
 (* ---- input.read(buf).await outside poll_input: Request::record_boundary, Token::parse_request ---- *)
@@ -1904,11 +1962,11 @@ Proof.
   assert (Hscript : script_ok true role (next_input_stream role None) script).
   { subst script. apply (Forall_nth_default (fun s => forall role, script_ok true role (next_input_stream role None) s));
       [exact Hscripts|]. apply Forall_last; [exact Hscripts|]. intros role'. constructor. }
-  pose proof (run_handler_ok norm maxc true role _ script Hscript (length script + 2) r0 w2 ltac:(lia) GR0
-                (ws_ok _ _ S2 (ws_ok _ _ S1 Wok)) eq_refl St0) as RH.
+  pose proof (run_handler_ok norm maxc LAny true role _ script Hscript I (length script + 2) r0 w2 ltac:(lia) GR0
+                (ws_ok _ _ S2 (ws_ok _ _ S1 Wok)) eq_refl St0 I) as RH.
   assert (Hnascript : no_abandoned_read script).
   { subst script. apply Forall_nth_default; [exact Hna|]. apply Forall_last; [exact Hna|constructor]. }
-  pose proof (run_handler_hs3 maxc true role _ script Hscript Hnascript (length script + 2) r0 w2 HS2) as RN.
+  pose proof (run_handler_hs3 maxc true role _ script Hscript Hnascript (length script + 2) r0 w2 HS2 eq_refl) as RN.
   unfold hpost in RH.
   destruct (run_handler maxc (length script + 2) script r0 w2) as [[st r1] w3|o w3]; [|cbn [fst]; exact RN].
   destruct RH as ((G1 & S3 & _) & Hst).
@@ -2129,7 +2187,7 @@ Theorem client_never_deadlocks : client_never_deadlocks_stmt.
 Proof.
   intros norm maxc scripts B cs w0 HB Hs Hna Hsegs Hcl Hlog Hnf.
   assert (Wok : world_ok w0) by (unfold world_ok; rewrite Hsegs; apply (client_world cs 0 0 Hcl)).
-  destruct (run_loop_total norm maxc scripts B w0 Wok Hs HB) as (w & [E|[E _]]); [rewrite E; reflexivity|].
+  destruct (run_loop_total norm maxc scripts B w0 Wok Hs HB) as (w & [E|E]); [rewrite E; reflexivity|].
   exfalso. apply (run_loop_nd3 norm maxc scripts Hs Hna (nb w0 + 4) (new_parser B) 0%nat w0 (new_parser_ok B HB) Wok);
     [|rewrite E; reflexivity].
   split; [apply world_ok_remaining; exact Wok|]. split; [exact Hnf|]. exists false.
@@ -2219,9 +2277,10 @@ Qed.
 
 (* the hypothesis [no_abandoned_read] matters too (compare ex2p_abandoned_read_deadlocks in PeerProofs2.v).  Request 1
    carries a GetValues query before its Stdin data; the transport accepts 3 bytes and is then not ready once.  The first
-   handler reads "abc", polls a read once and drops it (op 11) when 3 bytes of the reply to the query are written, writes
-   "hi" to Stdout and reads to the end.  Every other hypothesis holds, but the log is no longer a sequence of records: the
-   client never counts the EndRequest of request 1, request 2 is never released and the task waits for it. *)
+   handler reads "abc", polls a read once and drops it (op 11) when 3 bytes of the reply to the query are written — with
+   Request.lock held — and then writes "hi" to Stdout: the StreamWriter waits for the lock for ever (known finding F6).
+   Every other hypothesis holds, but the handler never finishes: no EndRequest of request 1 is written, request 2 is never
+   released and the task waits. *)
 Definition ex3p_c1 : creq :=
   mkCReq (mkPreamble [] 1 ROLE_Responder FLAG_KeepConn [] [] [] [])
          [ mkRcd RT_GetValues 0 [14; 0; 70; 67; 71; 73; 95; 77; 65; 88; 95; 67; 79; 78; 78; 83] [];
@@ -2267,9 +2326,14 @@ Qed.
 
 Example ex3p_abandoned_read_deadlocks :
   let r := run_loop (fun b => b) 10 (nb ex3p_w + 4) (new_parser 64) (ex3p_scripts 11) 0 ex3p_w in
-  fst r = ODeadlock /\ fst (counts (wlog (snd r))) = 0 /\ remaining (snd r) = enc_rcds (creq_rcds (ex3_c [100; 101])) /\
-  In [11; 2; 0; 1] (events (snd r)) /\ In [8] (events (snd r)).
-Proof. vm_compute. repeat split; try reflexivity; tauto. Qed.
+  fst r = ODeadlock /\ fst (counts (wlog (snd r))) = 0 /\
+  remaining (snd r) = enc_rcds [mkRcd RT_Stdin 1 [] []] ++ enc_rcds (creq_rcds (ex3_c [100; 101])) /\
+  In [11; 2; 0; 1] (events (snd r)) /\ ~ In [6; 0] (events (snd r)) /\ ~ In [8] (events (snd r)).
+Proof.
+  cbv zeta. split; [vm_compute; reflexivity|]. split; [vm_compute; reflexivity|]. split; [vm_compute; reflexivity|].
+  split; [vm_compute; tauto|].
+  split; (intros H; vm_compute in H; repeat (destruct H as [H|H]; [discriminate H|]); exact H).
+Qed.
 
 Example ex3p_awaited_read_returns :
   let r := run_loop (fun b => b) 10 (nb ex3p_w + 4) (new_parser 64) (ex3p_scripts 1) 0 ex3p_w in
